@@ -416,3 +416,188 @@ Proof.
   - unfold tor_eqQ, t_fx, t_fy, t_mz. cbn [fst snd]. rewrite !support_force_sum. repeat split; reflexivity.
 Qed.
 End Node.
+
+(* ---------- joints with released bar ends ---------- *)
+
+Section Released.
+Variable eps : Q.
+
+Definition comp_of (d : dof3) (k : nat) : nat := nth k (d3_list d) 0%nat.
+
+(* component by component, a bar end either carries the node's number, or a number of its own at
+   which the bar's support contribution vanishes (by its own row of the system) while the node's
+   number does not occur in the bar at all *)
+Definition end_numbers_ok (u : list Q) (p : pbar Q) (dE dN : dof3) : Prop :=
+  forall k, (k < 3)%nat ->
+    comp_of dE k = comp_of dN k \/
+    (bar_support u p (comp_of dE k) == 0 /\ bar_support u p (comp_of dN k) == 0).
+
+Definition meets_gen (u : list Q) (p : pbar Q) (N : nat) (dN : dof3) : Prop :=
+  (b_n1 (pb_bar p) = N /\ b_n2 (pb_bar p) <> N /\
+   exists n0 dE n1 d1 rest, pbar_nds p = (n0, dE) :: (n1, d1) :: rest /\ NoDup (d3_list dE) /\ end_numbers_ok u p dE dN /\
+     (forall i, In i (d3_list dE) -> ~ In i (nds_numbers ((n1, d1) :: rest))) /\
+     good_bar (pb_bar p) /\ ~ slice_len (pb_bar p) n0 n1 == 0 /\ no_tiny (s_k (sl_of (pb_bar p) (n0, dE) (n1, d1))) /\
+     tor_eqQ (pn_right n0) tor0)
+  \/
+  (b_n1 (pb_bar p) <> N /\ b_n2 (pb_bar p) = N /\
+   exists n0 d0 rest pa pda pb dE, pbar_nds p = (n0, d0) :: rest /\ last_pair n0 d0 rest = Some (pa, pda, pb, dE) /\
+     NoDup (d3_list dE) /\ end_numbers_ok u p dE dN /\
+     (forall Q, (n0, d0) :: rest = Q ++ [(pa, pda); (pb, dE)] -> forall i, In i (d3_list dE) -> ~ In i (nds_numbers (Q ++ [(pa, pda)]))) /\
+     good_bar (pb_bar p) /\ ~ slice_len (pb_bar p) pa pb == 0 /\ no_tiny (s_k (sl_of (pb_bar p) (pa, pda) (pb, dE))) /\
+     tor_eqQ (pn_left pb) tor0)
+  \/
+  (b_n1 (pb_bar p) <> N /\ b_n2 (pb_bar p) <> N /\ forall i, In i (d3_list dN) -> ~ In i (nds_numbers (pbar_nds p))).
+
+Lemma end_numbers_transfer u p dE dN : end_numbers_ok u p dE dN ->
+  tor_eqQ (bar_support u p (fst (fst dE)), bar_support u p (snd (fst dE)), bar_support u p (snd dE))
+          (bar_support u p (fst (fst dN)), bar_support u p (snd (fst dN)), bar_support u p (snd dN)).
+Proof.
+  intros H. destruct dE as [[e1 e2] e3], dN as [[a1 a2] a3].
+  pose proof (H 0%nat ltac:(lia)) as H0. pose proof (H 1%nat ltac:(lia)) as H1. pose proof (H 2%nat ltac:(lia)) as H2.
+  unfold comp_of, d3_list in H0, H1, H2. cbn [nth fst snd] in H0, H1, H2.
+  unfold tor_eqQ, t_fx, t_fy, t_mz. cbn [fst snd].
+  repeat split.
+  - destruct H0 as [-> | (A & B)]; [reflexivity | rewrite A, B; reflexivity].
+  - destruct H1 as [-> | (A & B)]; [reflexivity | rewrite A, B; reflexivity].
+  - destruct H2 as [-> | (A & B)]; [reflexivity | rewrite A, B; reflexivity].
+Qed.
+
+Lemma reaction_part_meets_gen (u : list Q) (p : pbar Q) (N : nat) (dN : dof3) :
+  length (pb_nodes p) = length (pb_dofs p) -> meets_gen u p N dN ->
+  tor_eqQ (reaction_part eps u N p)
+          (bar_support u p (fst (fst dN)), bar_support u p (snd (fst dN)), bar_support u p (snd dN)).
+Proof.
+  intros Hlen [(H1 & H2 & n0 & dE & n1 & d1 & rest & E & Hnd & Hok & Hdis & Hb & Hl & Hk & Hr)
+              | [(H1 & H2 & n0 & d0 & rest & pa & pda & pb & dE & E & L & Hnd & Hok & Hdis & Hb & Hl & Hk & Hr)
+              | (H1 & H2 & Habs)]].
+  - eapply tor_eqQ_trans; [| apply (end_numbers_transfer u p dE dN Hok)].
+    unfold reaction_part. cbv zeta. rewrite (proj2 (Nat.eqb_eq _ _) H1).
+    rewrite (first_last_nodes p n0 dE _ E).
+    apply (bar_support_start eps u p n0 dE n1 d1 rest E Hnd Hdis Hb Hl Hk Hr).
+  - eapply tor_eqQ_trans; [| apply (end_numbers_transfer u p dE dN Hok)].
+    unfold reaction_part. cbv zeta. rewrite (proj2 (Nat.eqb_neq _ _) H1), (proj2 (Nat.eqb_eq _ _) H2).
+    unfold last_node. rewrite (combine_last (pb_nodes p) (pb_dofs p) n0 d0 rest pa pda pb dE _ Hlen E L).
+    apply (bar_support_end eps u p n0 d0 rest pa pda pb dE E L Hnd Hdis Hb Hl Hk Hr).
+  - unfold reaction_part. cbv zeta. rewrite (proj2 (Nat.eqb_neq _ _) H1), (proj2 (Nat.eqb_neq _ _) H2).
+    unfold tor_eqQ, tor0, t_fx, t_fy, t_mz. cbn [fst snd NumOps.n0 QOps].
+    rewrite !bar_support_absent by (apply Habs; apply in_d3; auto). repeat split; reflexivity.
+Qed.
+
+(* THEOREM (any joint): the reaction solve reports at a node is the triple of support forces of the
+   equation form at the node's three numbers, whatever mix of rigid, hinged or sliding bar ends
+   meets there *)
+Theorem reported_reaction_is_support_force_gen (u : list Q) (bars : list (pbar Q)) (N : nat) (dN : dof3) :
+  (forall p, In p bars -> length (pb_nodes p) = length (pb_dofs p) /\ meets_gen u p N dN) ->
+  tor_eqQ (reaction_at eps bars u N)
+          (support_force u bars (fst (fst dN)), support_force u bars (snd (fst dN)), support_force u bars (snd dN)).
+Proof.
+  intros Hall.
+  eapply tor_eqQ_trans; [apply reaction_is_sum|].
+  eapply tor_eqQ_trans.
+  - apply (tor_sum_components _ (reaction_part eps u N)
+             (fun p => bar_support u p (fst (fst dN))) (fun p => bar_support u p (snd (fst dN))) (fun p => bar_support u p (snd dN))).
+    intros p Hp. destruct (Hall p Hp) as (Hlen & Hm). apply reaction_part_meets_gen; assumption.
+  - unfold tor_eqQ, t_fx, t_fy, t_mz. cbn [fst snd]. rewrite !support_force_sum. repeat split; reflexivity.
+Qed.
+
+(* where the hypothesis "the bar's support contribution vanishes at a number of its own" comes from:
+   a number carried by one bar only, without support and with a row, has no support force at all
+   (C03_no_support_force_at_free_numbers), and that force is the bar's own contribution *)
+Lemma own_number_no_support n sup u B1 p B2 e :
+  let bars := B1 ++ p :: B2 in
+  Forall (nums_below n) (all_slices bars) -> solves n bars sup u -> (e < n)%nat ->
+  is_supported sup e = false -> row_empty (all_contribs bars) e = false ->
+  ~ In e (bars_numbers B1) -> ~ In e (bars_numbers B2) ->
+  bar_support u p e == 0.
+Proof.
+  intros bars Hn Hs He Hsup Hrow HB1 HB2.
+  assert (S0 : support_force u bars e == 0).
+  { unfold support_force. rewrite (row_is_equilibrium n bars sup u e Hn Hs He Hsup Hrow). ring. }
+  rewrite support_force_sum in S0. unfold bars in S0. rewrite map_app in S0. cbn [map] in S0.
+  rewrite qsum_app in S0. cbn [qsum fold_right] in S0. change (fold_right Qplus 0 ?x) with (qsum x) in S0.
+  assert (Z : forall B, ~ In e (bars_numbers B) -> qsum (map (fun q => bar_support u q e) B) == 0).
+  { induction B as [|q B IH]; intros H; [reflexivity|]. cbn [map qsum fold_right]. change (fold_right Qplus 0 ?x) with (qsum x).
+    unfold bars_numbers in H. cbn [flat_map] in H.
+    rewrite IH by (intro G; apply H; apply in_or_app; right; exact G).
+    rewrite bar_support_absent by (intro G; apply H; apply in_or_app; left; exact G). ring. }
+  rewrite (Z B1 HB1), (Z B2 HB2) in S0. lra.
+Qed.
+End Released.
+
+(* ---------- the reported reactions balance the loads ---------- *)
+
+Section Balance.
+Variable eps : Q.
+
+Lemma fsum_over_list n (sup : list nat) (g : nat -> Q) : NoDup sup -> Forall (fun i => (i < n)%nat) sup ->
+  fsum n (fun i => if is_supported sup i then g i else 0) == qsum (map g sup).
+Proof.
+  induction sup as [|a sup IH]; intros Hnd Hlt.
+  - cbn [map qsum fold_right is_supported existsb]. apply fsum_zero.
+  - inversion Hnd as [|? ? Hna Hnd']; subst. inversion Hlt as [|? ? Ha Hlt']; subst.
+    cbn [map qsum fold_right]. change (fold_right Qplus 0 ?x) with (qsum x). rewrite <- (IH Hnd' Hlt').
+    rewrite <- (fsum_pick n a g Ha), <- fsum_add. apply fsum_ext. intros i _.
+    unfold is_supported. cbn [existsb]. rewrite (Nat.eqb_sym i a).
+    destruct (Nat.eqb_spec a i) as [->|Hne]; cbn [orb].
+    + assert (E : existsb (Nat.eqb i) sup = false).
+      { apply not_true_is_false. intro E. apply existsb_exists in E as (x & Hx & Ex). apply Nat.eqb_eq in Ex. subst. contradiction. }
+      rewrite E. ring.
+    + ring.
+Qed.
+
+(* work of a torsor applied at the three numbers of a node *)
+Definition node_work (w : nat -> Q) (r : tor Q) (d : dof3) : Q :=
+  w (fst (fst d)) * t_fx r + w (snd (fst d)) * t_fy r + w (snd d) * t_mz r.
+
+Definition node_supported (x : nat * link * dof3) : list nat :=
+  let l := snd (fst x) in let d := snd x in
+  (if lk_dx l then [fst (fst d)] else []) ++ (if lk_dy l then [snd (fst d)] else []) ++ (if lk_rz l then [snd d] else []).
+
+(* a node's reported reaction is the support force at its numbers, and a component the external
+   constraint leaves free carries no support force *)
+Definition node_reaction_ok (u : list Q) (bars : list (pbar Q)) (x : nat * link * dof3) : Prop :=
+  let N := fst (fst x) in let l := snd (fst x) in let d := snd x in
+  tor_eqQ (reaction_at eps bars u N) (support_force u bars (fst (fst d)), support_force u bars (snd (fst d)), support_force u bars (snd d)) /\
+  (lk_dx l = false -> support_force u bars (fst (fst d)) == 0) /\
+  (lk_dy l = false -> support_force u bars (snd (fst d)) == 0) /\
+  (lk_rz l = false -> support_force u bars (snd d) == 0).
+
+Lemma node_work_supported u bars w x : node_reaction_ok u bars x ->
+  qsum (map (fun i => w i * support_force u bars i) (node_supported x)) == node_work w (reaction_at eps bars u (fst (fst x))) (snd x).
+Proof.
+  intros ((R1 & R2 & R3) & Fx & Fy & Fz). unfold node_work, node_supported. cbv zeta.
+  unfold t_fx, t_fy, t_mz in *. cbn [fst snd] in *. rewrite R1, R2, R3.
+  destruct (lk_dx (snd (fst x))) eqn:Ex; destruct (lk_dy (snd (fst x))) eqn:Ey; destruct (lk_rz (snd (fst x))) eqn:Ez;
+    cbn [app map qsum fold_right]; rewrite ?(Fx eq_refl), ?(Fy eq_refl), ?(Fz eq_refl); ring.
+Qed.
+
+Lemma supported_of_nodes (nodes : list (nat * link * dof3)) :
+  supported_of (map (fun x => (snd (fst x), snd x)) nodes) = flat_map node_supported nodes.
+Proof. unfold supported_of. rewrite flat_map_concat_map, map_map, <- flat_map_concat_map. reflexivity. Qed.
+
+(* THEOREM: the reactions solve REPORTS for the nodes of the structure and all the assembled nodal
+   loads balance - in x, in y and in moment about any point (the three rigid movements w) *)
+Theorem reported_reactions_in_global_equilibrium n u bars (lab : nat -> label) (nodes : list (nat * link * dof3)) :
+  let sup := supported_of (map (fun x => (snd (fst x), snd x)) nodes) in
+  NoDup sup -> Forall (fun i => (i < n)%nat) sup ->
+  Forall (nums_below n) (all_slices bars) ->
+  Forall (fun t => (fst t < n)%nat) (all_fterms bars) ->
+  solves n bars sup u ->
+  (forall i, (i < n)%nat -> row_empty (all_contribs bars) i = true -> fraw_at (all_fterms bars) i == 0) ->
+  Forall (fun sl => no_tiny (s_k sl) /\ labelled lab sl /\ ~ slice_len (s_b sl) (s_na sl) (s_nb sl) == 0 /\
+                    b_c (s_b sl) * b_c (s_b sl) + b_s (s_b sl) * b_s (s_b sl) == 1) (all_slices bars) ->
+  Forall (node_reaction_ok u bars) nodes ->
+  forall w, (w = w_tx lab \/ w = w_ty lab \/ exists px py, w = w_rot lab px py) ->
+  qsum (map (fun x => node_work w (reaction_at eps bars u (fst (fst x))) (snd x)) nodes) + wsum w (all_fterms bars) == 0.
+Proof.
+  intros sup Hnd Hlt Hn Hf Hs Horph Hsl Hnodes w Hw.
+  rewrite <- (support_forces_in_global_equilibrium n sup u bars lab Hn Hf Hs Horph Hsl w Hw).
+  apply Qplus_inj_r.
+  rewrite (fsum_over_list n sup (fun i => w i * support_force u bars i) Hnd Hlt).
+  unfold sup. rewrite supported_of_nodes.
+  clear Hnd Hlt Hs sup. induction nodes as [|x nodes IH]; [reflexivity|].
+  inversion Hnodes as [|? ? Hx Hrest]; subst.
+  cbn [map flat_map qsum fold_right]. change (fold_right Qplus 0 ?y) with (qsum y).
+  rewrite map_app, qsum_app, (node_work_supported u bars w x Hx), (IH Hrest). reflexivity.
+Qed.
+End Balance.
